@@ -13,6 +13,7 @@ fn adapter(name: &str, variant: &str) -> Option<Box<dyn Adapter>> {
         "bulkhead" => Box::new(adapters::bulkhead::BulkheadAd::new()),
         "ratelimiter" => Box::new(adapters::ratelimiter::RateLimiterAd::new()),
         "adaptive" => Box::new(adapters::adaptive::AdaptiveAd::new()),
+        "retry" => Box::new(adapters::retry::RetryAd::new()),
         "circuitbreaker" => Box::new(adapters::circuitbreaker::CbAd::new(variant)),
         _ => return None,
     })
